@@ -1872,10 +1872,8 @@ class GramStack(Stack):
         if self.handler.opened:
             laters = deque()
             blockeds = []
-            while self.txPkts:
-                again = self._serviceOneTxPkt(laters, blockeds)
-                if not again:
-                    break
+            while self.txPkts:  # a blocked destination must not hold up the others
+                self._serviceOneTxPkt(laters, blockeds)
             while laters:
                 self.txPkts.append(laters.popleft())
 
